@@ -1356,9 +1356,262 @@ def _filled_by_state_reads(g, name, dn, val):
     return [ast.List(elts=reads, ctx=ast.Load())] + nodes
 
 
+# --- R15.3, second clause: the returned list is index-aligned with the uids ---
+#
+# methods / functions which change the order or the length of a list in place
+REORDER_METHODS = ('sort', 'reverse', 'pop', 'remove', 'insert', 'clear',
+                   'append', 'extend')
+REORDER_FUNCS   = ('shuffle', 'heapify', 'heappush', 'heappop', 'heapreplace')
+ORDER_KEEPING   = ('list', 'tuple')
+ORDER_LOSING    = ('sorted', 'reversed', 'set', 'frozenset')
+
+UIDS = 'uids'                       # parameter name (public API)
+
+
+def _node_exprs(n):
+    """the expressions a cfg node evaluates itself (not its nested blocks)"""
+    a = n.ast
+    if a is None:
+        return []
+    if n.kind == 'stmt':
+        return [a]
+    if n.kind == 'for':
+        return [a.iter]
+    if n.kind == 'with':
+        return [i.context_expr for i in a.items]
+    if n.kind in ('test', 'while'):
+        return [a.test] if isinstance(a, (ast.While, ast.If)) else [a]
+    return []
+
+
+def _changes_in_place(n, names):
+    """how cfg node n changes the order / the length / an element of a list
+    bound to one of `names`, in place ('' if it does not)"""
+    for x in _node_exprs(n):
+        for c in calls_in(x):
+            fn = c.func
+            if isinstance(fn, ast.Attribute) and fn.attr in REORDER_METHODS \
+                    and isinstance(fn.value, ast.Name) and fn.value.id in names:
+                return '`%s`' % short(c, 40)
+            if dotted(fn).split('.')[-1] in REORDER_FUNCS and c.args and \
+                    isinstance(c.args[0], ast.Name) and c.args[0].id in names:
+                return '`%s`' % short(c, 40)
+        if n.kind != 'stmt':
+            continue
+        tgts = []
+        if isinstance(x, ast.Assign):
+            tgts = [e for t in x.targets for e in (
+                t.elts if isinstance(t, (ast.Tuple, ast.List)) else [t])]
+        elif isinstance(x, ast.AugAssign):
+            tgts = [x.target]
+            if isinstance(x.target, ast.Name) and x.target.id in names:
+                return '`%s`' % short(x, 40)       # L += [..] / L *= 2
+        elif isinstance(x, ast.Delete):
+            tgts = x.targets
+        for t in tgts:
+            if isinstance(t, ast.Subscript) and \
+                    isinstance(t.value, ast.Name) and t.value.id in names:
+                return '`%s`' % short(x, 40)
+    return ''
+
+
+def _full_slice(sl):
+    """True / False / None (not decidable) - the slice takes everything"""
+    def const(e):
+        if e is None:
+            return None
+        if isinstance(e, ast.Constant) and isinstance(e.value, int):
+            return e.value
+        if isinstance(e, ast.UnaryOp) and isinstance(e.op, ast.USub) and \
+                isinstance(e.operand, ast.Constant) and \
+                isinstance(e.operand.value, int):
+            return -e.operand.value
+        return UNKNOWN
+    lo, up, st = const(sl.lower), const(sl.upper), const(sl.step)
+    if lo in (None, 0) and up is None and st in (None, 1):
+        return True
+    if lo is UNKNOWN or up is UNKNOWN or st is UNKNOWN:
+        return None
+    return False
+
+
+def _uid_domain(f, g, head, it, at, depth=0):
+    """is iterating `it` at cfg node `at` a walk over the awaited uids, all of
+    them, in the order the caller gave?  ('aligned' | 'broken' | 'unknown',
+    why)"""
+    if depth > 6:
+        return 'unknown', 'definition chain too long'
+    if isinstance(it, ast.Call) and not it.keywords and len(it.args) == 1 \
+            and isinstance(it.func, ast.Name) and \
+            not isinstance(it.args[0], ast.Starred):
+        if it.func.id in ORDER_KEEPING:
+            return _uid_domain(f, g, head, it.args[0], at, depth + 1)
+        if it.func.id in ORDER_LOSING:
+            k, why = _uid_domain(f, g, head, it.args[0], at, depth + 1)
+            if k == 'aligned':
+                return 'broken', 'walks `%s`, which is not in the order of ' \
+                    'the uids the caller gave' % short(it, 40)
+            return k, why
+    if isinstance(it, ast.Call) and isinstance(it.func, ast.Attribute) and \
+            it.func.attr == 'copy' and not it.args and not it.keywords:
+        return _uid_domain(f, g, head, it.func.value, at, depth + 1)
+    if isinstance(it, ast.Subscript) and isinstance(it.slice, ast.Slice):
+        k, why = _uid_domain(f, g, head, it.value, at, depth + 1)
+        if k != 'aligned':
+            return k, why
+        full = _full_slice(it.slice)
+        if full:
+            return k, why
+        if full is None:
+            return 'unknown', 'extent of the slice `%s`' % short(it, 40)
+        return 'broken', 'walks `%s`, which leaves out some of the uids' \
+            % short(it, 40)
+    if not isinstance(it, ast.Name):
+        return 'unknown', '`%s`' % short(it, 40)
+    defs, undefined = _defs_reaching(g, it.id, at)
+    if it.id == UIDS and UIDS in f.params:
+        # the awaited uids; re-binding it to a re-ordered / partial copy of
+        # itself loses the caller's order (anything else - `[uids]`, the keys
+        # of all entities when none was named - defines the order)
+        for dn in defs:
+            val = dn.ast.value if dn.kind == 'stmt' and \
+                isinstance(dn.ast, ast.Assign) else None
+            if val is None or not reads_name(val, UIDS) or \
+                    isinstance(val, ast.Name):
+                continue
+            k, why = _uid_domain(f, g, head, val, dn.id, depth + 1)
+            if k == 'broken':
+                return k, '`%s` (%s)' % (short(dn.ast, 40), why)
+        return 'aligned', ''
+    if head is not None and it.id in flows_to(f, g, head,
+                                              pending_vars(f, g, head)):
+        return 'broken', 'walks the check list `%s`, which only holds the ' \
+            'entities that are still waited for' % it.id
+    if undefined or len(defs) != 1:
+        return 'unknown', '%d definitions of `%s`' % (len(defs), it.id)
+    dn = defs[0]
+    val = dn.ast.value if dn.kind == 'stmt' and \
+        isinstance(dn.ast, ast.Assign) else None
+    if isinstance(val, ast.ListComp) and len(val.generators) == 1:
+        gen = val.generators[0]
+        k, why = _uid_domain(f, g, head, gen.iter, dn.id, depth + 1)
+        if k != 'aligned':
+            return k, why
+        if gen.ifs:
+            return 'broken', '`%s` filters the uids' % short(dn.ast, 50)
+        if not any(reads_name(val.elt, t)
+                   for t in stores_in_target(gen.target)):
+            return 'unknown', '`%s`' % short(dn.ast, 50)
+        return 'aligned', ''
+    if val is not None and (isinstance(val, ast.Name) or
+                            _copy_source(val) is not val):
+        return _uid_domain(f, g, head, val, dn.id, depth + 1)
+    return 'unknown', '`%s`' % short(dn.ast, 50)
+
+
+def _alignment(f, g, head, name, dn, val, filled, ret):
+    """the list `name` defined at cfg node dn by per-uid state reads (`val`: a
+    comprehension, or the list equivalent to an append loop, `filled`) and
+    returned at cfg node `ret`: [(True | False | None, why)]"""
+    out = []
+    # (a) the reads walk the awaited uids, all of them, in order, and each
+    #     element is the state of the entity of that round
+    if isinstance(val, ast.ListComp):
+        if len(val.generators) != 1:
+            return [(None, 'nested comprehension')]
+        gen = val.generators[0]
+        k, why = _uid_domain(f, g, head, gen.iter, dn.id)
+        if k == 'aligned' and gen.ifs:
+            k, why = 'broken', 'the comprehension filters the uids (`if ' \
+                '%s`)' % short(gen.ifs[0], 40)
+        if k == 'aligned' and not any(reads_name(val.elt, t)
+                                      for t in stores_in_target(gen.target)):
+            k, why = 'broken', 'the state read `%s` does not depend on the ' \
+                'loop variable' % short(val.elt, 40)
+    elif filled:
+        from ..flow import loop_slice
+        apps = filled[1:]
+        loops = {g.nodes[a].loops[-1] if g.nodes[a].loops else None
+                 for a in apps}
+        h = loops.pop() if len(loops) == 1 else None
+        if h is None or g.nodes[h].kind != 'for' or \
+                dn.id in g.loop_body[h] or dn.id == h:
+            return [(None, 'the appends which fill `%s` are not in one '
+                     '`for` loop' % name)]
+        hn = g.nodes[h]
+        k, why = _uid_domain(f, g, head, hn.ast.iter, h)
+        if k == 'aligned':
+            start, stop, stop_edge = loop_slice(g, h)
+            todo, seen, skipped = [start], set(), False
+            while todo and not skipped:
+                x = todo.pop()
+                if x in seen or x in apps:
+                    continue
+                seen.add(x)
+                for e in g.succ[x]:
+                    if e.label == 'exc':
+                        continue
+                    if stop_edge(e) or (stop(e.dst) and
+                                        g.nodes[e.dst].kind != 'raise'):
+                        skipped = True
+                    elif not stop(e.dst):
+                        todo.append(e.dst)
+            if skipped:
+                k, why = 'broken', 'a round of the loop over the uids can ' \
+                    'end without appending a state to `%s`' % name
+        if k == 'aligned':
+            tg = set(stores_in_target(hn.ast.target))
+            grew = True              # locals of the round computed from it
+            while grew:
+                grew = False
+                for x in g.loop_body[h]:
+                    xn = g.nodes[x]
+                    if xn.kind == 'stmt' and isinstance(xn.ast, ast.Assign) \
+                            and any(reads_name(xn.ast.value, t) for t in tg) \
+                            and not set(stores_of(xn)) <= tg:
+                        tg |= set(stores_of(xn))
+                        grew = True
+            for e in val.elts:
+                if not any(reads_name(e, t) for t in tg):
+                    k, why = 'broken', 'the state read `%s` does not ' \
+                        'depend on the loop variable' % short(e, 40)
+    else:
+        return [(None, 'a literal list of state reads')]
+    out.append(({'aligned': True, 'broken': False}.get(k), why))
+    # (b) nothing re-orders / resizes the list in place between the reads and
+    #     the return
+    others = {n.id for n in g.nodes if name in stores_of(n)} - {dn.id}
+    live = g.reachable(succ_ids(g, dn.id), skip_nodes=others)
+    names = {name}
+    grew = True
+    while grew:
+        grew = False
+        for n in g.nodes:
+            if n.id in live and n.kind == 'stmt' and \
+                    isinstance(n.ast, ast.Assign) and \
+                    isinstance(n.ast.value, ast.Name) and \
+                    n.ast.value.id in names:
+                for t in n.ast.targets:
+                    if isinstance(t, ast.Name) and t.id not in names:
+                        names.add(t.id)
+                        grew = True
+    for n in g.nodes:
+        if n.id not in live or n.id in filled[1:] or n.id == ret.id:
+            continue
+        how = _changes_in_place(n, names)
+        if how and ret.id in g.reachable(succ_ids(g, n.id),
+                                         skip_nodes=others):
+            out.append((False, '%s changes the list in place after the '
+                        'per-uid state reads' % how))
+    return out
+
+
 def r15_3(prog, rep, rid='R15.3'):
     rep.rule(rid, 'every return of the wait functions returns the current '
-             'state(s) of the awaited entities', minimum=6)
+             'state(s) of the awaited entities; the list returned by '
+             'wait_tasks / wait_pilots holds one state per awaited uid, in '
+             'the order of the uids (nothing re-orders, filters or resizes '
+             'it between the per-uid state reads and the return)', minimum=8)
     for rel, cname, mname, what in ANCHORS:
         f = prog.method(rel, cname, mname)
         rep.saw(f)
@@ -1378,6 +1631,10 @@ def r15_3(prog, rep, rid='R15.3'):
             alts += [(n, x) for x in vals]
         for n, v in alts:
             okay, why = None, ''
+            aligned = []             # verdicts of the second clause
+            whole = f.name in MANAGER_WAITS and (
+                isinstance(v, ast.Name) or isinstance(v, ast.Subscript) and
+                isinstance(v.slice, ast.Slice) and _full_slice(v.slice))
             if v is None or isinstance(v, ast.Constant):
                 okay, why = False, 'returns %s' % (
                     'nothing (None)' if v is None else unparse(v))
@@ -1409,6 +1666,9 @@ def r15_3(prog, rep, rid='R15.3'):
                                                  'stale state)' % base.id))
                             else:
                                 verdicts.append((True, ''))
+                            if whole and not isinstance(val, ast.Attribute):
+                                aligned += _alignment(f, g, head, base.id, dn,
+                                                      val, filled, n)
                         elif val is not None and not reads_state_attr(val):
                             verdicts.append((False, 'returns %r = `%s`, which '
                                              'is not a state read'
@@ -1443,6 +1703,32 @@ def r15_3(prog, rep, rid='R15.3'):
                           cname, mname, what) if v is not None else
                       '%s.%s(rps.DONE) on a %s that already is DONE returns '
                       'None instead of \'DONE\'' % (cname, mname, what))
+            if not whole or not okay:
+                continue
+            # second clause: the i-th returned state is that of the i-th uid
+            if not aligned or any(x[0] is None for x in aligned):
+                raise AnalysisError(
+                    'UNRECOGNISED-IDIOM %s: cannot relate the order of the '
+                    'returned list `%s` to the awaited uids (%s)' % (
+                        f.where, short(n.ast, 60),
+                        '; '.join(x[1] for x in aligned if x[0] is None)
+                        or 'no per-uid state read'))
+            bad = [x[1] for x in aligned if x[0] is False]
+            rep.check(not bad, rid, f,
+                      '%s: `%s` returns one state per awaited uid, in the '
+                      'order of the uids' % (f.qual, short(cons, 50)),
+                      construct='index-aligned with the uids: %s' % (
+                          cons if isinstance(cons, str) else unparse(cons)),
+                      message='%s: the list returned by `%s` is not '
+                      'index-aligned with the awaited uids: %s - the i-th '
+                      'returned state is not the state of the i-th %s, states '
+                      'are attributed to the wrong %ss' % (
+                          f.qual, short(cons, 50), '; '.join(bad), what, what),
+                      loc=f.loc(n.ast),
+                      history='%s.%s([u0, u1]) with u0 FAILED and u1 DONE: '
+                      'the caller pairs the uids with the returned list and '
+                      'reads a state that belongs to another %s (e.g. '
+                      '[\'DONE\', \'FAILED\'])' % (cname, mname, what))
 
 
 # ------------------------------------------------------------------------------
@@ -1528,7 +1814,39 @@ class StateEval:
                         args if len(args) > 1 else args[0])
                 if fn == 'len' and len(args) == 1:
                     return len(args[0])
+                if e.keywords:
+                    raise Uneval(unparse(e))
+                # plain copies / re-orderings of a concrete collection and
+                # the index domains a loop may run over: evaluated, so that
+                # the DOMAIN a fold iterates (`states[1:]`, `range(len(s) -
+                # 1)`, `sorted(states)`) is decided and not assumed
+                if isinstance(e.func, ast.Name) and len(args) == 1 and \
+                        isinstance(args[0], (list, tuple, set, frozenset,
+                                             range)):
+                    if fn in ('list', 'tuple'):
+                        return list(args[0])
+                    if fn in ('set', 'frozenset'):
+                        return list(dict.fromkeys(args[0]))
+                    if fn == 'sorted':
+                        return sorted(args[0])
+                    if fn == 'reversed':
+                        return list(reversed(list(args[0])))
+                    if fn == 'enumerate':
+                        return [[i, x] for i, x in enumerate(args[0])]
+                if isinstance(e.func, ast.Name) and fn == 'range' and \
+                        1 <= len(args) <= 3 and all(
+                            isinstance(a, int) and not isinstance(a, bool)
+                            for a in args):
+                    return list(range(*args))
+                if isinstance(e.func, ast.Attribute) and fn == 'copy' and \
+                        not args:
+                    v = self.ev(e.func.value)
+                    if isinstance(v, (list, tuple)):
+                        return list(v)
                 raise Uneval(unparse(e))
+            if isinstance(e, ast.Slice):
+                return slice(*[None if x is None else self.ev(x)
+                               for x in (e.lower, e.upper, e.step)])
             if isinstance(e, ast.Subscript):
                 return self.ev(e.value)[self.ev(e.slice)]
             if isinstance(e, (ast.List, ast.Tuple, ast.Set)):
@@ -1611,14 +1929,19 @@ class _LoopJump(Exception):
 def _min_var(f, name, var):
     """`name` is folded over the requested states before the wait starts
     (the earliest requested value): assigned once outside of, and otherwise
-    only inside ONE `for x in <var>` loop (`name = min(name, <table>[x])`,
-    `if <table>[x] < name: name = <table>[x]`, ...).  Returns (init expression,
-    the `for` statement) or None.  The fold is not recognised by its text: it
-    is run for every concrete request by `_run_fold`"""
+    only inside ONE `for` loop whose domain is computed from <var> (`for x in
+    <var>`, `for x in sorted(<var>)`, `for i in range(len(<var>))`, `for i, x
+    in enumerate(<var>)`; body `name = min(name, <table>[x])`, `if <table>[x]
+    < name: name = <table>[x]`, ...).  Returns (init expression, the `for`
+    statement) or None.  Neither the fold nor its domain is recognised by its
+    text: the loop is run for every concrete request by `_run_fold`, so a
+    domain that leaves out a requested state (`<var>[1:]`, `<var>[:-1]`,
+    `range(1, len(<var>))`) yields the threshold the program would compute"""
     fors = [n for n in walk(f.node) if isinstance(n, ast.For) and
-            isinstance(n.target, ast.Name) and
-            isinstance(_copy_source(n.iter), ast.Name) and
-            _copy_source(n.iter).id == var]
+            (isinstance(n.target, ast.Name) or
+             isinstance(n.target, (ast.Tuple, ast.List)) and
+             all(isinstance(t, ast.Name) for t in n.target.elts)) and
+            reads_name(n.iter, var)]
     inside = {}
     for n in fors:
         for b in n.body:
@@ -1669,7 +1992,15 @@ def _run_fold(ev, name, fold):
     init, loop = fold
     ev.names[name] = ev.ev(init)
     for r in list(ev.ev(loop.iter)):
-        ev.names[loop.target.id] = r
+        if isinstance(loop.target, ast.Name):
+            ev.names[loop.target.id] = r
+        else:
+            if not isinstance(r, (list, tuple)) or \
+                    len(r) != len(loop.target.elts):
+                raise Uneval('cannot unpack %r into `%s`'
+                             % (r, unparse(loop.target)))
+            for t, x in zip(loop.target.elts, r):
+                ev.names[t.id] = x
         try:
             _run_block(ev, loop.body)
         except _LoopJump as j:
@@ -1884,7 +2215,12 @@ def keep_tables(prog, f, g, head, var, what):
                             for a, p in relevant) or 'True'
         out.append(dict(evar=evar, site=site, cond=cond, relevant=relevant,
                         ignored=ignored, requests=requests, domain=domain,
-                        table=table, kept=kept))
+                        table=table, kept=kept,
+                        folds=['`%s`, which the loop `for %s in %s` folds '
+                               'over the request'
+                               % (x, unparse(fold[1].target),
+                                  short(fold[1].iter, 40))
+                               for x, fold in sorted(minvars.items())]))
     return out
 
 
@@ -1947,9 +2283,11 @@ def r15_4(prog, rep, rid='R15.4'):
                       'which still holds when it is in state %s and %s was '
                       'requested (%d such combinations, e.g. %s): the wait '
                       'does not return although the requested state is '
-                      'reached' % (f.qual, stays, short(cond, 120),
-                                   ex[0] if ex else '', ex[1] if ex else '',
-                                   len(stuck), sorted({x[0] for x in stuck})),
+                      'reached%s' % (f.qual, stays, short(cond, 120),
+                                     ex[0] if ex else '', ex[1] if ex else '',
+                                     len(stuck), sorted({x[0] for x in stuck}),
+                                     ''.join('; the condition reads %s' % x
+                                             for x in k.get('folds', []))),
                       loc=f.loc(site),
                       history='%s.%s(state=%r) while the %s rests in %r: the '
                       'call returns only when the %s moves on (or at the '
@@ -1984,6 +2322,14 @@ class _LoopEval(StateEval):
 
     def ev(self, e):
         if isinstance(e, (ast.Call, ast.Subscript)) and not self.is_state(e):
+            try:
+                return super().ev(e)         # slices, sorted(..): evaluated
+            except Uneval:
+                if isinstance(e, ast.Subscript) and \
+                        isinstance(e.slice, ast.Slice) and not (
+                            e.slice.lower is None and e.slice.upper is None
+                            and e.slice.step is None):
+                    raise                    # a part of it is not a copy
             src = _copy_source(e)
             if src is not e:
                 return list(self.ev(src))
@@ -4668,4 +5014,123 @@ SILENT += [
         (_PM, _PM_WHILE, "        low = min([rps._pilot_state_values[s] for s in states])\n" + _PM_WHILE),
         (_PM, _PM_FILT, _PM_FILT.replace("pilot.state not in states and",
                                          "rps._pilot_state_values[pilot.state] < low and"))]),
+]
+
+
+# ------------------------------------------------------------------------------
+# round 5: C15-h3 (the fold of the wait_tasks threshold skips the first
+# requested state: the DOMAIN of the fold is evaluated, R15.4) and C15-h4 (the
+# returned list is sorted in place: second clause of R15.3, the returned list
+# is index-aligned with the awaited uids)
+#
+_TM_FOR_S = "        for state in states:\n" + _TM_UPD
+_TM_READ  = "            states = [self._tasks[uid].state for uid in uids]\n"
+_PM_READ  = "            states = [self._pilots[uid].state for uid in uids]\n"
+_TM_SDICT = "        sdict = {state: states.count(state) for state in set(states)}\n"
+_TM_REPORT = (_TM_SDICT + "        for state in sorted(set(states)):\n")
+
+MUTATIONS += [
+    # --- domain of the threshold fold (seed C15-h3)
+    dict(name='R15.4 seed C15-h3: the threshold fold of wait_tasks starts at the second requested state',
+         rules=('R15.4',), edits=[
+        (_TM, "        for state in states:\n" + _TM_UPD, "        for state in states[1:]:\n" + _TM_UPD)],
+         note='wait_tasks(state=S): nothing is folded, the threshold stays at "final"'),
+    dict(name='R15.4 threshold fold stops one requested state early',
+         rules=('R15.4',), edits=[
+        (_TM, _TM_FOR_S, "        for state in states[:-1]:\n" + _TM_UPD)]),
+    dict(name='R15.4 threshold fold by index, starting at 1',
+         rules=('R15.4',), edits=[
+        (_TM, _TM_FOR_S, "        for i in range(1, len(states)):\n"
+                         "            check_state_val = min(check_state_val,\n"
+                         "                                  rps._task_state_values[states[i]])\n")]),
+    dict(name='R15.4 threshold fold leaves at the first requested state that does not lower it',
+         rules=('R15.4',), edits=[
+        (_TM, _TM_UPD, "            if rps._task_state_values[state] >= check_state_val:\n"
+                       "                break\n"
+                       "            check_state_val = rps._task_state_values[state]\n")],
+         note='state=[DONE, AGENT_EXECUTING]: DONE equals the initial final value, the fold breaks before it sees the earlier state'),
+    # --- the returned list is index-aligned with the uids (seed C15-h4)
+    dict(name='R15.3 seed C15-h4: wait_tasks sorts the returned list in place for the report',
+         rules=('R15.3',), edits=[
+        (_TM, _TM_REPORT, "        states.sort()\n"
+                          "        sdict = {state: states.count(state) for state in states}\n"
+                          "        for state in sdict:\n")]),
+    dict(name='R15.3 wait_tasks: the returned list is reversed in place',
+         rules=('R15.3',), edits=[
+        (_TM, _TM_SDICT, "        states.reverse()\n" + _TM_SDICT)]),
+    dict(name='R15.3 wait_tasks: the report sorts an alias of the returned list',
+         rules=('R15.3',), edits=[
+        (_TM, _TM_REPORT, "        ordered = states\n        ordered.sort()\n" + _TM_SDICT +
+                          "        for state in sorted(set(ordered)):\n")]),
+    dict(name='R15.3 wait_pilots: states read in the order of the sorted uids',
+         rules=('R15.3',), edits=[
+        (_PM, _PM_READ, "            states = [self._pilots[uid].state for uid in sorted(uids)]\n")]),
+    dict(name='R15.3 wait_pilots: finished pilots popped off the returned list',
+         rules=('R15.3',), edits=[
+        (_PM, "        # done waiting\n        if ret_list: return states\n        else       : return states[0]\n\n\n"
+              "    # --------------------------------------------------------------------------\n    #\n    def _fail_missing_pilots",
+              "        # done waiting\n        if ret_list:\n            while states and states[-1] in rps.FINAL:\n"
+              "                states.pop()\n            return states\n        return states[0]\n\n\n"
+              "    # --------------------------------------------------------------------------\n    #\n    def _fail_missing_pilots")]),
+    dict(name='R15.3 wait_tasks: states read from the check list (only the tasks still waited for)',
+         rules=('R15.3',), edits=[
+        (_TM, _TM_READ, "            states = [task.state for task in to_check]\n")]),
+    dict(name='R15.3 wait_tasks: states collected in a loop that skips final tasks',
+         rules=('R15.3',), edits=[
+        (_TM, _TM_READ, "            states = list()\n            for uid in uids:\n"
+                        "                if self._tasks[uid].state in rps.FINAL:\n                    continue\n"
+                        "                states.append(self._tasks[uid].state)\n")]),
+]
+
+SILENT += [
+    # --- domain of the threshold fold
+    dict(name='wait_tasks threshold: fold over a copy of the requested states', edits=[
+        (_TM, _TM_FOR_S, "        for state in list(states):\n" + _TM_UPD)]),
+    dict(name='wait_tasks threshold: fold over the sorted requested states', edits=[
+        (_TM, _TM_FOR_S, "        for state in sorted(set(states)):\n" + _TM_UPD)]),
+    dict(name='wait_tasks threshold: fold over states[0:]', edits=[
+        (_TM, _TM_FOR_S, "        for state in states[0:]:\n" + _TM_UPD)]),
+    dict(name='wait_tasks threshold: fold by index', edits=[
+        (_TM, _TM_FOR_S, "        for i in range(len(states)):\n"
+                         "            check_state_val = min(check_state_val,\n"
+                         "                                  rps._task_state_values[states[i]])\n")]),
+    dict(name='wait_tasks threshold: fold with enumerate, renamed local', edits=[
+        (_TM, _TM_FOR_S, "        for _idx, wanted in enumerate(states):\n"
+                         "            check_state_val = min(check_state_val,\n"
+                         "                                  rps._task_state_values[wanted])\n")]),
+    dict(name='wait_tasks threshold: first state seeds the fold, the rest is folded', edits=[
+        (_TM, _TM_FOLD, "        check_state_val = rps._task_state_values[states[0]]\n"
+                        "        for state in states[1:]:\n" + _TM_UPD)],
+         note='the very slice of the seed, behaviour-preserving here: the first state is the initial value'),
+    # --- the returned list and the report
+    dict(name='wait_tasks report: a sorted COPY of the returned list (list() + sort())', edits=[
+        (_TM, _TM_REPORT, "        ordered = list(states)\n        ordered.sort()\n" + _TM_SDICT +
+                          "        for state in ordered:\n")],
+         note='prints duplicates; the returned list is untouched'),
+    dict(name='wait_tasks report: sorted copy by slice', edits=[
+        (_TM, _TM_REPORT, "        ordered = states[:]\n        ordered.sort()\n        ordered.reverse()\n" + _TM_SDICT +
+                          "        for state in sorted(set(ordered)):\n")]),
+    dict(name='wait_tasks: states collected by an append loop', edits=[
+        (_TM, _TM_READ, "            states = list()\n            for uid in uids:\n"
+                        "                states.append(self._tasks[uid].state)\n")]),
+    dict(name='wait_tasks: tasks looked up first, then their states', edits=[
+        (_TM, _TM_READ, "            tasks  = [self._tasks[uid] for uid in uids]\n"
+                        "            states = [task.state for task in tasks]\n")]),
+    dict(name='wait_pilots: states read over a copy of the uids, renamed local', edits=[
+        (_PM, _PM_READ, "            result = [self._pilots[pid].state for pid in list(uids)]\n"),
+        (_PM, "        if ret_list: return states\n        else       : return states[0]\n\n\n"
+              "    # --------------------------------------------------------------------------\n    #\n    def _fail_missing_pilots",
+              "        if ret_list: return result\n        else       : return result[0]\n\n\n"
+              "    # --------------------------------------------------------------------------\n    #\n    def _fail_missing_pilots")]),
+    dict(name='wait_pilots: states appended under if/else (one append on every path)', edits=[
+        (_PM, _PM_READ, "            states = []\n            for uid in uids:\n"
+                        "                pilot = self._pilots[uid]\n"
+                        "                if pilot.state in rps.FINAL:\n                    states.append(pilot.state)\n"
+                        "                else:\n                    self._log.debug('%s not final', uid)\n"
+                        "                    states.append(pilot.state)\n")]),
+    dict(name='wait_tasks: single return with a conditional expression', edits=[
+        (_TM, "        if ret_list: return states\n        else       : return states[0]\n\n\n"
+              "    # --------------------------------------------------------------------------\n    #\n    def cancel_tasks",
+              "        return states if ret_list else states[0]\n\n\n"
+              "    # --------------------------------------------------------------------------\n    #\n    def cancel_tasks")]),
 ]
